@@ -1,0 +1,61 @@
+//! Verification hooks. Compiled only with the `verif-hooks` cargo feature.
+//!
+//! Everything here is an add-only `pub` wrapper around crate-private items so that an
+//! external harness can drive the real code in-process. Nothing in this module is used
+//! by the server itself and with the feature off the crate is unchanged.
+#![allow(missing_docs)]
+
+use crate::prelude::*;
+use std::collections::BTreeMap;
+use std::time::Duration;
+
+/// C10: `ReplicationUpdateVector::range_diff` flattened to plain data.
+pub mod ruv {
+    use super::*;
+    use crate::repl::proto::ReplCidRange;
+    use crate::repl::ruv::{RangeDiffStatus, ReplicationUpdateVector};
+
+    pub type Ranges = BTreeMap<Uuid, (Duration, Duration)>;
+
+    #[derive(Debug, PartialEq, Eq)]
+    pub enum Status {
+        Ok(Ranges),
+        Refresh(Ranges),
+        Unwilling(Ranges),
+        Critical(Ranges, Ranges),
+        NoRuvOverlap,
+    }
+
+    fn to_repl(r: &Ranges) -> BTreeMap<Uuid, ReplCidRange> {
+        r.iter()
+            .map(|(k, (a, b))| {
+                (
+                    *k,
+                    ReplCidRange {
+                        ts_min: *a,
+                        ts_max: *b,
+                    },
+                )
+            })
+            .collect()
+    }
+
+    fn from_repl(r: BTreeMap<Uuid, ReplCidRange>) -> Ranges {
+        r.into_iter()
+            .map(|(k, v)| (k, (v.ts_min, v.ts_max)))
+            .collect()
+    }
+
+    pub fn range_diff(consumer: &Ranges, supplier: &Ranges) -> Status {
+        match ReplicationUpdateVector::range_diff(&to_repl(consumer), &to_repl(supplier)) {
+            RangeDiffStatus::Ok(d) => Status::Ok(from_repl(d)),
+            RangeDiffStatus::Refresh { lag_range } => Status::Refresh(from_repl(lag_range)),
+            RangeDiffStatus::Unwilling { adv_range } => Status::Unwilling(from_repl(adv_range)),
+            RangeDiffStatus::Critical {
+                lag_range,
+                adv_range,
+            } => Status::Critical(from_repl(lag_range), from_repl(adv_range)),
+            RangeDiffStatus::NoRUVOverlap => Status::NoRuvOverlap,
+        }
+    }
+}
